@@ -544,9 +544,26 @@ var headKinds = []memoKind{
 	}},
 }
 
+// directOnlyKinds: memoised things exercised by the model-free direct checks only (no op lines, the oracle does not know them).
+// flatMapHeadTail (seed C16-12 of round 5): the head thunk and the tail thunk of ONE list.FlatMap cell both need fn(x); the
+// requests alternate between l.Head() and l.Tail().Head(), so two goroutines force the two thunks of the same fresh cell at once -
+// fn must still run once (the shared lazy.Call), whatever MakeList memoises per thunk.
+var directOnlyKinds = []memoKind{
+	{"flatMapHeadTail", func(th func() int) func() int {
+		l := list.FlatMap(list.Of(7), func(int) Lst { v := th(); return list.Of(v, v) })
+		var n atomic.Int64
+		return func() int {
+			if n.Add(1)%2 == 1 {
+				return l.Head()
+			}
+			return l.Tail().Head()
+		}
+	}},
+}
+
 func kindByName(name string) (memoKind, bool) {
 	name = strings.TrimSuffix(name, ".s")
-	for _, k := range append(append([]memoKind{}, intKinds...), headKinds...) {
+	for _, k := range append(append(append([]memoKind{}, intKinds...), headKinds...), directOnlyKinds...) {
 		if k.name == name {
 			return k, true
 		}
@@ -717,6 +734,26 @@ func genBehs(r *Rng) []*Sx {
 
 func genTH(r *Rng) *Sx {
 	return L(append([]*Sx{A("th"), I(NewID())}, genBehs(r)...)...)
+}
+
+// thunks for the direct-only kinds: the FIRST execution returns a value (what a second execution would do still differs, so a
+// re-run is visible); the alternating access paths of those kinds render a panicking first execution differently per path
+func genTHValueFirst(r *Rng) *Sx {
+	v := func() *Sx { return L(A("v"), I(r.Range(1, 99))) }
+	bs := []*Sx{v(), v()}
+	if r.Intn(3) == 0 {
+		bs = []*Sx{v(), L(A("p"), I(r.Range(1, 9)))}
+	}
+	return L(append([]*Sx{A("th"), I(NewID())}, bs...)...)
+}
+
+func isDirectOnly(kind string) bool {
+	for _, k := range directOnlyKinds {
+		if k.name == strings.TrimSuffix(kind, ".s") {
+			return true
+		}
+	}
+	return false
 }
 
 func genF1(r *Rng) *Sx {
@@ -1137,7 +1174,7 @@ func runDirect(op *Sx) string {
 
 func direct(r *Rng, sink *Sink, dir string, n int) int {
 	checks := 0
-	all := append(append([]memoKind{}, intKinds...), headKinds...)
+	all := append(append(append([]memoKind{}, intKinds...), headKinds...), directOnlyKinds...)
 	do := func(op *Sx) {
 		checks++
 		sink.Probe(dir, "memopanic/direct", op.String())
@@ -1151,7 +1188,11 @@ func direct(r *Rng, sink *Sink, dir string, n int) int {
 		ResetIDs()
 		kind := all[(i+r.Intn(2))%len(all)].name
 		hist["direct.seq."+kind]++
-		do(L(A("direct"), A("seq"), A(kind), genTH(r), I(r.Range(0, 5))))
+		th := genTH(r)
+		if isDirectOnly(kind) {
+			th = genTHValueFirst(r)
+		}
+		do(L(A("direct"), A("seq"), A(kind), th, I(r.Range(0, 5))))
 	}
 	for i := 0; i < n/4+len(all); i++ {
 		ResetIDs()
@@ -1160,8 +1201,13 @@ func direct(r *Rng, sink *Sink, dir string, n int) int {
 			kind += ".s"
 		}
 		hist["direct.conc."+strings.TrimSuffix(kind, ".s")]++
-		do(L(A("direct"), A("conc"), A(kind), genTH(r), I(r.Range(2, 8)), I(r.Range(1, 3))))
+		th := genTH(r)
+		if isDirectOnly(kind) {
+			th = genTHValueFirst(r)
+		}
+		do(L(A("direct"), A("conc"), A(kind), th, I(r.Range(2, 8)), I(r.Range(1, 3))))
 	}
+	checks += liftedReuse(sink)
 	return checks
 }
 
@@ -1295,4 +1341,52 @@ func main() {
 		fmt.Printf("%q: %d", k, hist[k])
 	}
 	fmt.Println("}}")
+}
+
+// liftedReuse (C16 faithfulness; seed C16-13 of round 5): a function lifted with lazy.FuncN is a VALUE that may be applied several
+// times; every application is its own deferred call with its own arguments, whatever is built or forced afterwards.  (A lifted
+// function that builds its deferred call once and rebinds the captured arguments on every application makes an earlier application,
+// forced after a later one was built, compute with the later arguments.)
+func liftedReuse(sink *Sink) int {
+	checks := 0
+	sub := func(a, b int) int { return a*10 - b }
+	check := func(name string, got func() int, want int) {
+		checks++
+		g := recovered(func() string { return strconv.Itoa(got()) })
+		if g != strconv.Itoa(want) {
+			sink.DirectFail("faithful/lifted-reuse", "(law lifted-function-applied-twice "+name+")", "evaluates to "+g+", strict evaluation gives "+strconv.Itoa(want))
+		}
+	}
+	{
+		lf := lazy.Func1(func(a int) int { return a + 1 })
+		x, y := lf(10), lf(100)
+		check("Func1 second-then-first", func() int { return y.Get()*1000 + x.Get() }, 101*1000+11)
+	}
+	{
+		lf := lazy.Func2(sub)
+		x, y := lf(10, 3), lf(100, 1)
+		check("Func2 Map2(first, second)", func() int { return lazy.Map2(x, y, func(p, q int) int { return p*10000 + q }).Get() }, 97*10000+999)
+		x2, y2 := lf(7, 1), lf(8, 2)
+		check("Func2 second-then-first", func() int { return y2.Get()*1000 + x2.Get() }, 78*1000+69)
+	}
+	{
+		lf := lazy.Func3(func(a, b, c int) int { return a*100 + b*10 + c })
+		x, y := lf(1, 2, 3), lf(4, 5, 6)
+		check("Func3 FlatMap(second, first)", func() int {
+			return lazy.FlatMap(y, func(q int) lazy.Eval[int] { return lazy.Map(x, func(p int) int { return q*1000 + p }) }).Get()
+		}, 456*1000+123)
+	}
+	{
+		// the same for TailCallN steps applied to different arguments
+		var fact func(n, acc int) lazy.Eval[int]
+		fact = func(n, acc int) lazy.Eval[int] {
+			if n <= 1 {
+				return lazy.Done(acc)
+			}
+			return lazy.TailCall2(fact, n-1, acc*n)
+		}
+		a, b := lazy.TailCall2(fact, 5, 1), lazy.TailCall2(fact, 3, 1)
+		check("TailCall2 second-then-first", func() int { return b.Get()*1000 + a.Get() }, 6*1000+120)
+	}
+	return checks
 }
